@@ -233,8 +233,11 @@ def child_env(mod, tier):
     env = dict(os.environ)
     env["PYTHONHASHSEED"] = "0"
     env["DONT_USE_MPI"] = "1"
+    # VERIF_SRC: development aid for mutation validation — a scratch copy of /repo/src that shadows the
+    # editable install. Registered commands never set it, so they always run against /repo itself.
+    alt = [env["VERIF_SRC"]] if env.get("VERIF_SRC") else []
     env["PYTHONPATH"] = os.pathsep.join(
-        [str(ROOT), str(DEPS)] + ([env["PYTHONPATH"]] if env.get("PYTHONPATH") else [])
+        alt + [str(ROOT), str(DEPS)] + ([env["PYTHONPATH"]] if env.get("PYTHONPATH") else [])
     )
     env["PYTHONDONTWRITEBYTECODE"] = "1"
     env["VERIF_TIER"] = tier
